@@ -80,3 +80,32 @@ Section Envs.
       rewrite SKt, (match_envname_ok bws name rest W NM). f_equal; unfold mk; f_equal; lia.
   Qed.
 End Envs.
+
+(** * Specials *)
+Lemma plain_start_facts c : plain_start c = true ->
+  is_space c = false /\ N.eqb c 92 = false /\ N.eqb c 36 = false /\ N.eqb c 37 = false /\
+  N.eqb c 123 = false /\ N.eqb c 125 = false.
+Proof.
+  unfold plain_start. intros H. apply andb_true_iff in H. destruct H as [H1 H2].
+  apply negb_true_iff in H1. apply negb_true_iff in H2. cbn [mem_c existsb] in H2.
+  repeat (apply orb_false_iff in H2; destruct H2 as [? H2]). tauto.
+Qed.
+
+Section Specials.
+  Variables (cx : context) (ps : pstate).
+  Hypothesis V : std_view cx ps.
+
+  Lemma dispatch_specials s p pre c cr rest :
+    plain_start c = true ->
+    test_specials (map fst (cx_specials cx)) ((c :: cr) ++ rest) None = Some (c :: cr) ->
+    dispatch ps s ((c :: cr) ++ rest) p pre c
+    = TokOk (mk TkSpecials (c :: cr) p (p + length (c :: cr)) pre []).
+  Proof.
+    intros PS TS. destruct (plain_start_facts c PS) as (_ & E92 & E36 & E37 & E123 & E125).
+    unfold dispatch. cbn [app].
+    rewrite (stage_math_none cx ps V), (stage_escape_none cx ps V), (stage_comment_none cx ps V),
+      (stage_group_none cx ps V) by assumption.
+    cbn [orelse]. unfold stage_specials. rewrite (sv_specials _ _ V), (sv_enspecials _ _ V).
+    cbn [app] in TS. rewrite TS. reflexivity.
+  Qed.
+End Specials.
